@@ -472,6 +472,15 @@ def base_rules(F, rep, I):
     fd = I["std::vec::Vec<T>"]["Deserialize"]["decode_static"][1]
     ld = [callee_name(c) for i, c, args, *_ in calls(fd) if callee_matches(c, r"Deserialize::decode$") and c.get("self") == "u64"]
     rep.check(r8 == ["const:8"] and len(le) == 1 and "len(arg:self)" in le[0][1] and len(ld) == 1, "BASE-align", "Vec:length-word(8)=len-encoded-as-u64", where, "size_static %s; encodes %s; decodes %s" % (r8, le, ld))
+    # the element count travels from decode_static to decode_dynamic as the vector's capacity: both allocations must be made
+    # with exactly the decoded length, and decode_dynamic must decode `capacity()` elements
+    lens = [describe(fd, args[0], depth=14) for i, c, args, *_ in calls(fd) if callee_matches(c, r"TryInto<.*>>?::try_into$|TryFrom<.*>>?::try_from$")]
+    allocs = [(callee_name(c).rsplit("::", 1)[-1], describe(fd, args[-1], depth=14)) for i, c, args, *_ in calls(fd) if callee_matches(c, r"Vec::<T>::with_capacity$|vec::from_elem$")]
+    okc = len(lens) == 1 and "call:decode(arg:buffer)" in lens[0] and len(allocs) == 2 and all(re.match(r"^call:branch\(call:map_err\(call:try_into\(", a[1]) for a in allocs) and len({a[1] for a in allocs}) == 1
+    fdd = I["std::vec::Vec<T>"]["Deserialize"]["decode_dynamic"][1]
+    rng = [[describe(fdd, x, depth=8) for x in rv[3]] for i, j, p, rv, line in assignments(fdd) if rv[0] == "agg" and rv[1].endswith("ops::range::Range")]
+    rep.check(okc and rng == [["const:0", "call:capacity(arg:self)"]], "BASE-align", "Vec:element-count=length-word(via capacity)", where,
+              "decode_static allocates %s from length %s; decode_dynamic iterates %s" % (allocs, lens, rng))
 
 
 def rv_d(f, rv):
